@@ -35,16 +35,17 @@ pub(super) fn generate_field_definitions(
                     .ok_or_else(|| Error::new_spanned(field, "Field must have a name"))?;
 
                 let field_type = utils::remove_lifetimes_from_type(&field.ty);
-                let field_name_str = field_name.to_string();
+                // The `r#` of a raw identifier is not part of the field's name.
+                let field_name_str = syn::ext::IdentExt::unraw(field_name).to_string();
 
                 let static_name = if let Some(variant_ident) = variant_prefix {
                     quote::format_ident!(
                         "FIELD_{}_{}",
                         variant_ident.to_string().to_uppercase(),
-                        field_name.to_string().to_uppercase()
+                        field_name_str.to_uppercase()
                     )
                 } else {
-                    quote::format_ident!("FIELD_{}", field_name.to_string().to_uppercase())
+                    quote::format_ident!("FIELD_{}", field_name_str.to_uppercase())
                 };
 
                 let comments = utils::extract_doc_comments(&field.attrs);
